@@ -21,6 +21,7 @@
 using namespace vh;
 
 static void noth(const char*, void*) {}
+static void noopcb(void) {}
 
 static GEOSContextHandle_t newCtx() {
     GEOSContextHandle_t h = GEOS_init_r();
@@ -233,6 +234,7 @@ static int scenario(const std::string& name, int T, long iters) {
     for (int t = 0; t < T; t++) th.emplace_back([&, t]() {
         go.fetch_add(1); while (go.load() < T) std::this_thread::yield();
         if (name == "refcount") { GEOSContextHandle_t h = newCtx(); for (long i = 0; i < iters; i++) { GEOSGeometry* p = GEOSGeom_createPointFromXY_r(h, 1, 2); GEOSGeom_destroy_r(h, p); } GEOS_finish_r(h); }
+        else if (name == "interrupt" && t == 0) { for (long i = 0; i < iters; i++) { GEOS_interruptRegisterCallback(i % 2 ? nullptr : noopcb); std::this_thread::yield(); } GEOS_interruptRegisterCallback(nullptr); }
         else if (name == "interrupt") { for (long i = 0; i < iters; i++) { GEOSContextHandle_t h = newCtx(); Rng r(i); GEOSGeometry* a = star(h, r, 0, 0, 3, 12); GEOSGeometry* c = GEOSConvexHull_r(h, a); GEOSGeom_destroy_r(h, c); GEOSGeom_destroy_r(h, a); GEOS_finish_r(h); } }
         else if (name == "version") { for (long i = 0; i < iters; i++) { const char* v = GEOSversion(); if (!v || !v[0]) bad++; } }
         else if (name == "hasz") { GEOSContextHandle_t h = newCtx(); for (long i = 0; i < iters; i++) { if (GEOSHasZ_r(h, sharedSeqGeom) != 1) bad++; GEOSGeom_getCoordinateDimension_r(h, sharedSeqGeom); } GEOS_finish_r(h); }
